@@ -219,6 +219,9 @@ func (ord *Order) Calculate() error {
 	// Try to set Regime if not already prepared from the supplier's tax ID
 	if ord.Regime.IsEmpty() {
 		ord.SetRegime(partyTaxCountry(ord.Supplier))
+	} else if rd := ord.RegimeDef(); rd != nil {
+		// an alternative country code is replaced by the regime's own
+		ord.SetRegime(rd.Country)
 	}
 	ord.Normalize(ord.normalizers())
 	return calculate(ord)
